@@ -1,4 +1,4 @@
 SPECIFICATION Spec
-CONSTANTS MaxEx = 2  SeqSample = 0  BugTrailerCRLF = TRUE  BugUncompressed = TRUE
+CONSTANTS MaxEx = 2  SeqSample = 0  BugTrailerCRLF = TRUE  BugUncompressed = TRUE  ChunkedTo10 = FALSE
 INVARIANTS HeadTerminated SelfDelimitingOrClose
 CHECK_DEADLOCK FALSE
